@@ -596,8 +596,8 @@ func scaleN() int {
 // come from the ordinary generator, with a fixed generator seed.
 func TestC09EnumScale(t *testing.T) {
 	n := scaleN()
-	if n > 12000 {
-		n = 12000
+	if n > 70000 {
+		n = 70000
 	}
 	c := rapid.Custom(func(rt *rapid.T) c09Case {
 		c := c09Case{World: cfggen.GenWorld(rt), Mode: "mux"}
